@@ -183,7 +183,7 @@ def sources(ctx, navis, rng, tmp):
     """the same SWC table through every source kind"""
     for ci in range(ctx.n(12, 120)):
         f = F.gen_forest(rng, 2, 25, lattice=True)
-        x = F.mk_neuron(f, name='alpha%d' % ci, nid=4200 + ci, radius=rng.integers(0, 5, size=len(f['ids'])).astype(float))
+        x = F.mk_neuron(f, name='alpha%d' % ci, nid=4200 + ci, radius=rng.integers(0, 5, size=len(f['ids'])).astype(float), units=str(rng.choice(['8 nm', '1 um', '2 nm'])))
         d = os.path.join(tmp, 'src%d' % ci)
         os.makedirs(d)
         # the file is NOT named after the neuron: what the file name says (through `fmt`) must win over the header metadata
@@ -212,7 +212,14 @@ def sources(ctx, navis, rng, tmp):
         ptab = os.path.join(d, 'tab.swc_')
         open(ptab, 'w').write('\n'.join('\t'.join(l.split(' ')) if not l.startswith('#') else l for l in text.split('\n')))
         kinds['tab-delimited'] = lambda: navis.read_swc(open(ptab).read(), delimiter='\t', precision=prec)
+        # the constructor routes: TreeNeuron(path | SWC string | binary buffer) read the file as read_swc does
+        kinds['TreeNeuron(path)'] = lambda: navis.TreeNeuron(p)
+        kinds['TreeNeuron(string)'] = lambda: navis.TreeNeuron(text)
+        kinds['TreeNeuron(binarybuffer)'] = lambda: navis.TreeNeuron(io.BytesIO(text.encode()))
         res = {k: guarded(fn) for k, fn in kinds.items()}
+        if prec != 32:
+            for k in [k_ for k_ in res if k_.startswith('TreeNeuron(')]:      # the constructor has no precision argument: table compared at the default only
+                del res[k]
         base = res['path']
         ctx.case((str(f['ids']), str(f['parents']), prec, 'sources'), nontrivial=F.nontrivial(f))
         ctx.count('sources')
@@ -230,12 +237,38 @@ def sources(ctx, navis, rng, tmp):
         desc = dict(desc, write_meta=meta, file='beta%d_77.swc' % ci, neuron_name=x.name, neuron_id=x.id)
         if st != 'ok' or n.name != 'beta%d' % ci or n.id != 77:
             ctx.violation('name/id are not parsed from the file name as the fmt pattern prescribes', desc, dict(name=getattr(n, 'name', None), id=getattr(n, 'id', None)) if st == 'ok' else n)
+        if meta:
+            for k, (st, n) in res.items():
+                if st == 'ok' and k != 'dataframe' and str(n.units) != str(x.units):
+                    ctx.violation('units are not restored from the header metadata (source kind %s)' % k, desc, dict(units=str(n.units), want=str(x.units)))
         for kind in ('path', 'folder', 'zip'):
             st, n = res[kind]
             if st == 'ok' and n.name != 'beta%d_77' % ci:
                 ctx.violation('with the default fmt the name is not the file name (source kind %s)' % kind, desc, dict(name=n.name))
             if st == 'ok' and meta and str(n.id) != str(x.id):
                 ctx.violation('id (as text) is not restored from the header metadata (source kind %s)' % kind, desc, dict(id=n.id, want=x.id))
+        # a LIST written to a folder and to a zip archive: one file per neuron whatever its id looks like (dots, dashes, blanks)
+        if ci % 3 == 0:
+            idl = ['AVLP%03d.R' % ci, 'AVLP%03d.L' % ci, int(500 + ci), 'v1.2-x']
+            nl = navis.NeuronList([F.mk_neuron(F.gen_forest(rng, 2, 8, lattice=True), name='m%d' % j, nid=i_) for j, i_ in enumerate(idl)])
+            def geo(n_):      # the tree up to renumbering: every node with its parent's position
+                pos_ = {int(i_): (float(a_), float(b_), float(c_)) for i_, a_, b_, c_ in zip(n_.nodes.node_id.values, n_.nodes.x.values, n_.nodes.y.values, n_.nodes.z.values)}
+                return sorted((pos_[int(i_)], float(r_), pos_.get(int(q_))) for i_, q_, r_ in zip(n_.nodes.node_id.values, n_.nodes.parent_id.values, n_.nodes.radius.values))
+            want_l = {str(n_.id): geo(n_) for n_ in nl}
+            for target in (os.path.join(tmp, 'list%d' % ci), os.path.join(tmp, 'list%d.zip' % ci)):
+                if not target.endswith('.zip'):
+                    os.makedirs(target)
+                st, _w = guarded(navis.write_swc, nl, target)
+                dl = dict(kind='list-to-' + ('zip' if target.endswith('.zip') else 'folder'), ids=[str(i_) for i_ in idl])
+                ctx.count('list-write')
+                if st != 'ok':
+                    ctx.violation('write_swc(list) raised', dl, _w)
+                    continue
+                st, back = guarded(navis.read_swc, target, parallel=False)
+                got_l = {str(n_.id): geo(n_) for n_ in back} if st == 'ok' else None
+                if st != 'ok' or got_l != want_l:
+                    ctx.violation('a list of neurons written to a folder / zip does not read back as the same trees under their ids', dl,
+                                  back if st != 'ok' else dict(read_ids=sorted(got_l), written_ids=sorted(want_l)))
         # a pattern with an IGNORED field ({}): '<name>_<anything>_<id>.swc'
         d3 = os.path.join(tmp, 'src%d_ign' % ci)
         os.makedirs(d3)
